@@ -85,7 +85,7 @@ def standins(tier, seed):
     from pyvc import standin
     if not os.path.exists(os.path.join(standin.VERIF, 'standins', 'c19_plot.py')):
         return []
-    n = 40 if tier == 'quick' else 1500
+    n = 200 if tier == 'quick' else 3000
     return [standin.run_script('scale-arithmetic-in-binary64-and-svg-plots', 'c19_plot.py', seed, n,
                                'bounded: adversarial doubles on every back-up mode and scale direction (exact oracle); generated LIS / LAS log '
                                'passes (constant, ramp, spiky, huge, tiny, negative, absent runs) plotted with FILM/PRES tables, built-in and '
